@@ -53,12 +53,12 @@ def stepWith (isFirst : Bool) (i : Inst) (s : State) (a : Nat) : State :=
   let av3 := upd av2 0 (done || depotOpen)
   -- current_length = current_length + dist(cur, prev)
   let len1 := s.curLen + i.D s.cur a
-  -- where(done, current_length + dist(cur, depot), current_length)
-  let len2 := if done then len1 + i.D a 0 else len1
-  -- max_subtour_length = where(current_length > max_subtour_length, current_length, max_subtour_length)
-  let mx := if len2 > s.maxLen then len2 else s.maxLen
-  -- current_length *= (cur_agent_idx == agent_idx)
-  let len3 := if agent' = s.agent then len2 else 0
+  -- closed_length = where(done, current_length + dist(cur, depot), current_length)
+  let closed := if done then len1 + i.D a 0 else len1
+  -- max_subtour_length = where(closed_length > max_subtour_length, closed_length, max_subtour_length)
+  let mx := if closed > s.maxLen then closed else s.maxLen
+  -- current_length *= (cur_agent_idx == agent_idx)     (the closing leg is NOT stored)
+  let len3 := if agent' = s.agent then len1 else 0
   { cur := a, agent := agent', curLen := len3, maxLen := mx, avail := av3, i := s.i + 1,
     first := if isFirst then a else s.first, done := done }
 
@@ -77,15 +77,9 @@ def env : Env Inst State where
 /-- `_get_reward`, `cost_type = "minmax"`: `td["reward"] = -max_subtour_length` of the final state. -/
 def rewardMinmax (s : State) : Int := - s.maxLen
 
-/-- `_get_reward`, `cost_type = "sum"`: `locs.gather(1, actions.unsqueeze(-1).expand_as(locs))`
-raises unless `len(actions) = num_loc` or `len(actions) = 1` (a size-1 dimension is broadcast: the
-single action is repeated `num_loc` times); `none` = the call raises.  Otherwise the TSP-style
-closed length of the raw (gathered) sequence. -/
-def rewardSum (i : Inst) (as : List Nat) : Option Int :=
-  if as.length = i.n + 1 then some (- rollLen i.D as)
-  else match as with
-    | [a] => some (- rollLen i.D (List.replicate (i.n + 1) a))
-    | _ => none
+/-- `_get_reward`, `cost_type = "sum"`: the depot is prepended to the actions, then the usual
+gather / roll / sum (`get_tour_length`) — defined for action lists of any length. -/
+def rewardSum (i : Inst) (as : List Nat) : Int := - rollLen i.D (0 :: as)
 
 /-- The batched `_step` as written: the first-step flag is read from row 0 only. -/
 def batchStep (rows : List (Inst × State)) (acts : List Nat) : List (Inst × State) :=
